@@ -2185,18 +2185,18 @@ func (a *adapter) MessageDeleteList(topic string, toDel *t.DelMessage) error {
 				if rng.Hi == 0 {
 					indexVals = append(indexVals, []any{topic, rng.Low})
 				} else {
-					for i := rng.Low; i <= rng.Hi; i++ {
+					for i := rng.Low; i < rng.Hi; i++ {
 						indexVals = append(indexVals, []any{topic, i})
 					}
 				}
 			}
 			query = query.GetAllByIndex("Topic_SeqId", indexVals...)
 		} else {
-			// Optimizing for a special case of single range low..hi
+			// Optimizing for a special case of single range low..hi. The range is half-open: hi is exclusive.
 			query = query.Between(
 				[]any{topic, toDel.SeqIdRanges[0].Low},
 				[]any{topic, toDel.SeqIdRanges[0].Hi},
-				rdb.BetweenOpts{Index: "Topic_SeqId", RightBound: "closed"})
+				rdb.BetweenOpts{Index: "Topic_SeqId", RightBound: "open"})
 		}
 		// Skip already hard-deleted messages.
 		query = query.Filter(rdb.Row.HasFields("DelId").Not())
